@@ -24,6 +24,7 @@ package c12
 // without error); re-encoding the decoded value gives back that value.
 
 import (
+	"encoding"
 	"encoding/json"
 	"fmt"
 	"reflect"
@@ -44,6 +45,11 @@ var tolTypes = append(append([]reflect.Type{}, claimTypes...),
 	reflect.TypeOf(oidc.UserInfoPhone{}),
 )
 
+var (
+	tTextUnmarshaler = reflect.TypeOf((*encoding.TextUnmarshaler)(nil)).Elem()
+	tJSONUnmarshaler = reflect.TypeOf((*json.Unmarshaler)(nil)).Elem()
+)
+
 var tolCats = []string{"locale", "locales", "time", "boolstr", "bool", "audience", "strings", "spacelist"}
 
 type carrier struct {
@@ -55,6 +61,7 @@ type carrier struct {
 	sib       int // a plain string member to put before the member (-1: none)
 	hasCustom bool
 	leaf      reflect.Type
+	foreign   bool // a member of another category (thorough): decoded alone only
 }
 
 // tolDecTypes: per type the members whose category the reference codec knows.
@@ -63,9 +70,20 @@ var tolDecTypes = func() map[reflect.Type]*decType {
 	for _, t := range tolTypes {
 		d := &decType{t: t}
 		for _, f := range jsonFields(t) {
-			if !strings.HasPrefix(f.cat, "unsupported:") {
-				d.fields = append(d.fields, f)
+			if strings.HasPrefix(f.cat, "unsupported:") {
+				continue
 			}
+			// string-kinded types with a decoder of their own (Display: an enum that
+			// drops unknown words) are not one of the statement's forms
+			if el := f.typ; f.cat == "string" || f.cat == "strings" {
+				if f.cat == "strings" {
+					el = el.Elem()
+				}
+				if p := reflect.PointerTo(el); p.Implements(tTextUnmarshaler) || p.Implements(tJSONUnmarshaler) {
+					continue
+				}
+			}
+			d.fields = append(d.fields, f)
 		}
 		m[t] = d
 	}
@@ -92,10 +110,11 @@ func carriersFor(home []string, foreign bool) []carrier {
 					break
 				}
 			}
-			if engine.Has(strings.Join(home, ","), f.cat) && inList(home, f.cat) {
+			if inList(home, f.cat) {
 				out = append(out, c)
 			} else if foreign && !seenForeign[f.cat] {
 				seenForeign[f.cat] = true
+				c.foreign = true
 				later = append(later, c)
 			}
 		}
@@ -168,7 +187,10 @@ func isZeroJSON(v any) bool {
 }
 
 // reencodeMember: the decoded value, marshalled again, carries the member's value.
-func reencodeMember(tn string, ptr reflect.Value, f field) (sig, detail string) {
+// A member that decoded to the zero value is not set: the types with a custom map keep the
+// document's own value under that name there and may emit it again (open by decision: a
+// custom key colliding with a member that is not set), so orig lists the document's values.
+func reencodeMember(tn string, ptr reflect.Value, f field, orig ...any) (sig, detail string) {
 	got := refVal(ptr.Elem().FieldByIndex(f.index), f.cat)
 	var b []byte
 	var err error
@@ -184,6 +206,11 @@ func reencodeMember(tn string, ptr reflect.Value, f field) (sig, detail string) 
 	}
 	dv, present := doc[f.name]
 	if eq(got, zeroOf(f.cat)) || got == nil {
+		for _, o := range orig {
+			if eq(dv, o) {
+				return "", ""
+			}
+		}
 		if present && !isZeroJSON(dv) {
 			return "C12/reencode-invented-member/" + f.cat, fmt.Sprintf("%s: member %q decoded to the zero value but is re-encoded as %v: %s", tn, f.name, dv, b)
 		}
@@ -253,7 +280,7 @@ func (d *decType) judgeDup(fi int, first, s *shape) decResult {
 			}
 			continue
 		}
-		if !e1.accepts(got) && !e2.accepts(got) {
+		if !e1.accepts(got) && !e2.accepts(got) && !mixOf(got, first.val, s.val) {
 			return decResult{rule: rule, outcome: "wrong-value", sig: "C12/decode-value-not-in-document/" + f.cat + "/" + s.class(),
 				detail: fmt.Sprintf("json.Unmarshal(%s, *%s): member %q decoded to %v, which neither occurrence denotes", text, tn, f.name, got)}
 		}
@@ -261,11 +288,48 @@ func (d *decType) judgeDup(fi int, first, s *shape) decResult {
 			outcome = "value"
 		}
 	}
-	if m, ok := customMap(sv); ok && m.Len() > 0 {
-		return decResult{rule: rule, outcome: "invented-member", sig: "C12/decode-invented-custom/" + tn,
-			detail: fmt.Sprintf("json.Unmarshal(%s, *%s): custom map %v although every member of the document is registered", text, tn, m.Interface())}
+	if m, ok := customMap(sv); ok {
+		// the custom map may repeat the document's members, nothing else
+		for _, k := range m.MapKeys() {
+			if k.String() != f.name {
+				return decResult{rule: rule, outcome: "invented-member", sig: "C12/decode-invented-custom/" + tn,
+					detail: fmt.Sprintf("json.Unmarshal(%s, *%s): custom map has key %q that is not in the document", text, tn, k.String())}
+			}
+		}
 	}
 	return decResult{rule: rule, outcome: outcome, ptr: ptr}
+}
+
+// mixOf: encoding/json decodes a repeated array member INTO the slice the first occurrence
+// left behind (a null element keeps what was there), so a plain list may end up with
+// elements of both occurrences. Duplicate names are outside the statement; what is asked
+// is only that every element is a string the document contains (null reads as "").
+func mixOf(got any, docs ...any) bool {
+	l, ok := got.([]any)
+	if !ok {
+		return false
+	}
+	have := map[any]bool{}
+	for _, d := range docs {
+		dl, ok := d.([]any)
+		if !ok {
+			return false
+		}
+		for _, x := range dl {
+			switch x := x.(type) {
+			case string:
+				have[x] = true
+			case nil:
+				have[""] = true
+			}
+		}
+	}
+	for _, g := range l {
+		if !have[g] {
+			return false
+		}
+	}
+	return true
 }
 
 // runTol decodes one generated shape in one carrier and context.
@@ -314,7 +378,11 @@ func runTol(car *carrier, ctx string, s *shape) engine.Result {
 		return engine.Bad(rule, r.outcome, r.sig, r.detail)
 	}
 	if r.ptr.IsValid() {
-		if sig, detail := reencodeMember(d.t.Name(), r.ptr, f); sig != "" {
+		orig := []any{s.val}
+		if ctx == "dup-after-valid" {
+			orig = append(orig, firstValid[f.cat].val)
+		}
+		if sig, detail := reencodeMember(d.t.Name(), r.ptr, f, orig...); sig != "" {
 			return engine.Bad(rule, "reencode-differs", sig, fmt.Sprintf("after decoding %s into %s.%s: %s", s.text, d.t.Name(), f.name, detail))
 		}
 	}
@@ -359,6 +427,7 @@ type tolGen struct {
 	home  []string     // categories of the carriers (quick)
 	dims  []engine.Dim // generator dimensions; element 0 of each is the valid default
 	k     int          // deviation bound over dims (0 = full product)
+	full  []string     // with k > 0: dimensions that are enumerated in full nevertheless
 	build func(get func(string) string) *shape
 }
 
@@ -422,7 +491,7 @@ func localesGen(thorough bool) tolGen {
 	if thorough {
 		dims = append(dims, ld[4], engine.D("others", "valid", "unknown-subtag"))
 	}
-	return tolGen{part: "tol/locales", home: []string{"locales"}, dims: dims,
+	return tolGen{part: "tol/locales", home: []string{"locales"}, dims: dims, k: engine_pick(thorough, 2, 3), full: []string{"form", "len-pos"},
 		build: func(get func(string) string) *shape {
 			sep := "-"
 			others := "valid"
@@ -633,15 +702,15 @@ func tolPart(c *engine.Check, g tolGen) {
 	space = append(space, g.dims...)
 	e := engine.E1{Part: g.part, Space: space, K: len(space)}
 	if g.k > 0 {
-		e.Groups, e.K = [][]string{{"carrier", "context"}}, g.k
+		e.Groups, e.K = [][]string{append([]string{"carrier", "context"}, g.full...)}, g.k
 	}
 	e.Skip = func(v engine.Vec) bool {
 		car := &cars[v[0]]
 		switch tolContexts[v[1]] {
 		case "siblings":
-			return car.mode != "member" || (car.sib < 0 && !car.hasCustom)
+			return car.mode != "member" || car.foreign || (car.sib < 0 && !car.hasCustom)
 		case "dup-after-valid":
-			return car.mode != "member" || firstValid[car.cat] == nil
+			return car.mode != "member" || car.foreign || firstValid[car.cat] == nil
 		}
 		return false
 	}
